@@ -34,6 +34,8 @@ def gen_case(rng, tier, params=None):
     quick = tier == "quick"
     cfg = rng.fork("cfg")
     fam = cfg.weighted([("rand", 4), ("struct", 3), ("irred", 3), ("src", 2), ("bc", 1), ("bcref", 1.2)])
+    if fam in ("rand", "struct") and rng.fork("sharedexit").chance(0.12):
+        fam = "sharedexit"
     if params.get("family"):
         fam = params["family"]
     nmax = 12 if quick else 24
